@@ -9,7 +9,7 @@ import numpy as np
 from dask._task_spec import Alias, List, Task, TaskRef
 from dask_array._expr import ArrayExpr
 from dask_array._utils import meta_from_array
-from dask_array._core_utils import concatenate3 as concatenate_shaped
+from dask_array._core_utils import concatenate3
 from dask_array.slicing._utils import parse_assignment_indices, setitem
 from dask.base import is_dask_collection
 from dask.core import flatten
@@ -319,6 +319,18 @@ class SetItem(ArrayExpr):
         value = Array(self.value) if hasattr(self.value, "_meta") else self.value
 
         return setitem_array_expr(self._name, array, self.index, value)
+
+
+def concatenate_shaped(arrays, shape):
+    """Concatenate a flat, C-ordered list of blocks laid out on the block grid ``shape``."""
+
+    def nest(seq, dims):
+        if len(dims) <= 1:
+            return list(seq)
+        n = len(seq) // dims[0]
+        return [nest(seq[i * n : (i + 1) * n], dims[1:]) for i in range(dims[0])]
+
+    return concatenate3(nest(list(arrays), tuple(shape)))
 
 
 class ConcatenateArrayChunks(ArrayExpr):
